@@ -85,7 +85,7 @@ def api_for(cl, rl):
 
 def cfg_key(c):
     return (c['part'], c['kind'], c['fsci'], c['fwi'], c['cl'], c['rl'],
-            c['dev'], c.get('ats_form', 'abc'))
+            c['dev'], c.get('ats_form', 'abc'), c.get('wtxm', 1))
 
 
 def grid(tier):
@@ -118,6 +118,13 @@ def grid(tier):
                 cfgs.append(dict(part='main', kind='A', fsci=fsci, fwi=fwi,
                                  cl=1, rl=n + 1, dev='std', k=2,
                                  ats_form=form))
+    # every legal waiting time multiplier (WTXM 1..59) in the card's S(WTX)
+    # request, at every position where the card may ask (one deviation)
+    for kind in 'AB':
+        n = simpicc.frame_size(2) - 3
+        for wtxm in range(1, 60):
+            cfgs.append(dict(part='main', kind=kind, fsci=2, fwi=4, cl=n + 1,
+                             rl=n + 1, dev='std', k=1, wtxm=wtxm))
     # the largest legal response (extended Le 0000h: 65536 octets + SW1 SW2)
     # and one octet less, fault free and with one fault anywhere
     for kind in 'AB':
@@ -203,7 +210,8 @@ def run_one(cfg, ch):
     app = simpicc.CounterApp(rsp_len=cfg['rl'],
                              sw=b'\x90\x00' if use_sw else None)
     card = simpicc.Picc(app, kind=cfg['kind'], fsci=cfg['fsci'],
-                        fwi=cfg['fwi'], chooser=ch, wtx=True)
+                        fwi=cfg['fwi'], chooser=ch, wtx=True,
+                        wtxm=cfg.get('wtxm', 1))
     if 'ats_form' in cfg:
         card.ats_form = cfg['ats_form']
         card.ats_ta = 0xC4            # as TB(1) it would read FWI 12
